@@ -20,6 +20,24 @@ Theorem c14_countmin_ok_value_is_usable :
   forall p : prog, pok nh nb mx sh p -> pweight mx sh p <= mx -> eval nh nb mx sh bucket p <> Stuck.
 Proof. exact api_never_stuck. Qed.
 
+(* the reader of the SIGNED counter types (cells are i64; [cm_deserialize_sg true]): total for any bytes, never
+   Stuck; what it keeps is exactly what the plain reader returns, and conversely (T::MAX < 2^63); images it
+   accepts but that hold a negative counter are reported as [Ok None] (outside the model, dropped by the harness);
+   a counter equal to T::MIN is always rejected (|T::MIN| exceeds every total weight) *)
+Theorem c14_countmin_signed_reader_never_stuck :
+  forall sg mx sh bs, cm_deserialize_sg sg mx sh bs <> Stuck.
+Proof. exact deserialize_sg_never_stuck. Qed.
+
+Theorem c14_countmin_signed_reader_agrees :
+  forall sg mx sh bs s, (sg = true -> mx < 9223372036854775808) ->
+  (cm_deserialize_sg sg mx sh bs = Ok (Some s) <-> cm_deserialize mx sh bs = Ok s).
+Proof. exact deserialize_sg_agrees. Qed.
+
+Theorem c14_countmin_unsigned_reader_same :
+  forall mx sh bs,
+  cm_deserialize_sg false mx sh bs = match cm_deserialize mx sh bs with Ok s => Ok (Some s) | Err => Err | Stuck => Stuck end.
+Proof. exact deserialize_sg_unsigned. Qed.
+
 (* non-vacuity: the u8 image with total weight 1 and a counter of 255 (accepted before the repair; the next
    update of weight 1 then overflowed the counter) is rejected; the same table with total 255 is accepted and
    a program using it runs *)
@@ -30,3 +48,14 @@ Example c14_countmin_example :
   exists s, eval 1 3 255 7 (fun x r => (x + r) mod 3) (PHalve (PUpd (PImage (hdr ++ cell 255 ++ cell 255 ++ cell 0 ++ cell 0)) 4 0)) = Ok s /\
             cm_total s = 127.
 Proof. split; [vm_compute; reflexivity|]. eexists. split; [vm_compute; reflexivity|reflexivity]. Qed.
+
+(* i8: a counter cell of T::MIN = -128 (pattern 0x..ff80) is rejected even with total weight T::MAX; -127 is
+   accepted with total 127 but holds a negative counter (outside the model); without it the image is kept *)
+Example c14_countmin_signed_example :
+  let hdr := [2; 1; 18; 0; 0; 0; 0; 0; 3; 0; 0; 0; 1; 7; 0; 0] in
+  let cell v := [v; 0; 0; 0; 0; 0; 0; 0] in
+  let neg v := [v; 255; 255; 255; 255; 255; 255; 255] in
+  cm_deserialize_sg true 127 7 (hdr ++ cell 127 ++ neg 128 ++ cell 0 ++ cell 0) = Err /\
+  cm_deserialize_sg true 127 7 (hdr ++ cell 127 ++ neg 129 ++ cell 0 ++ cell 0) = Ok None /\
+  cm_deserialize_sg true 127 7 (hdr ++ cell 127 ++ cell 127 ++ cell 0 ++ cell 0) = Ok (Some (mkCm 1 3 127 7 127 [127; 0; 0])).
+Proof. vm_compute. repeat split. Qed.
